@@ -190,7 +190,8 @@ def run_c01(pid, tier):
     for unit in ["  ", " \t", "x \n", " \"", "\\ ", "a b", "\r\n "]:
         run = unit * (9000 // len(unit))
         extra.append(dict(canon=("@use super::wrap_html;\n@(" + DECL + ")\n|" + run + "|").encode(), perts=[], expect=[("|" + run + "|").encode()] * 3, items=None))
-    for run in ["å\r\nb", "line one é\r\nline two\r\n\r\nend", "\r\n€", "a\rb\u00e9\n\rc", "tab\t\u00e9\r\n"]:
+    for run in ['say "hi"\r\nnext', "back\\slash\r\n\r\nend", 'a"#\r\nb', "q\"\rlone",
+                "å\r\nb", "line one é\r\nline two\r\n\r\nend", "\r\n€", "a\rb\u00e9\n\rc", "tab\t\u00e9\r\n"]:
         extra.append(dict(canon=("@use super::wrap_html;\n@(" + DECL + ")\n|" + run + "|").encode(), perts=[], expect=[("|" + run + "|").encode()] * 3, items=None))
     run = ("åäö " * 13 + "\n") * 420
     extra.append(dict(canon=("@use super::wrap_html;\n@(" + DECL + ")\n|" + run).encode(), perts=[], expect=[("|" + run).encode()] * 3, items=None))
@@ -471,6 +472,8 @@ def run_c05(pid, tier):
     addcase("|@(xs.iter().map(|x: &'_ u32| *x).sum::<u32>()), isn't it", ["|%d, isn't it" % sum(a["xs"]) for a in ARGSETS], "tick")
     addcase("|@(n + 'x'.len_utf8()) 'q' (", ["|%d 'q' (" % (a["n"] + 1) for a in ARGSETS], "tick")
     addcase("|@(n + { let q: &'static str = \"ab\"; q.len() })' )", ["|%d' )" % (a["n"] + 2) for a in ARGSETS], "tick")
+    # fragments that span lines, with blanks / tabs right before a line break inside a string literal
+    addcase("|@(\"x  \n y \t\nz\") @format!(\"{} \n{}\t\n\", n, n)|", ["|x  \n y \t\nz %d \n%d\t\n|" % (a["n"], a["n"]) for a in ARGSETS], "doc")
     # a bare string literal is an expression like any other: rendered through ToHtml, once
     addcase("|@\"we're <open>\" @\"R&D\".", ["|we&#39;re &lt;open&gt; R&amp;D."] * len(ARGSETS), "doc")
     addcase("|@for _i in 0..3 {@bump(),}", ["|%s" % "".join("%d," % (3 * k + j + 1) for j in range(3)) for k in range(3)], "once")
@@ -574,6 +577,8 @@ def run_c13(pid, tier):
             args.append(val)
         sep = rng.choice([", ", ",", ",\n    ", ", "])
         uses = list(USES[:4]) + rng.sample(USES[4:], rng.randint(0, 4))
+        # brace groups whose members are called like the placeholders a format / replace based generator might use
+        if rng.random() < 0.25: uses += rng.sample(["crate::fields::{name}", "crate::fields::{type_args, preamble}", "crate::fields::{name as body}"], rng.randint(1, 2))
         if rng.random() < 0.3: uses += [g for g in ("std::collections::*", "std::iter::*", "crate::models::*", "std::cmp::*") if g not in uses][:rng.randint(2, 3)]
         # an imported name that ends in this template's own function name, one that begins with it, and the name itself from another module
         if i % 8 == 0: uses += ["crate::own::base_d%d_html" % i, "crate::own::d%d_html_v2" % i, "crate::own::d%d_html as d%d_alias" % (i, i)]
@@ -582,6 +587,7 @@ def run_c13(pid, tier):
         open_ws = rng.choice(["", " ", "\n  "]); close_ws = rng.choice(["", " ", "\n"])
         src = "".join("@use %s;\n" % u for u in uses) + "@" + lifetimes + "(" + open_ws + sep.join(params) + close_ws + ")\n" + body
         cases.append(dict(canon=src.encode(), perts=[], items=None, expect=[exp.encode()], args=", ".join(args), uses=uses, params=params, lifetimes=lifetimes))
+    user_rs += "pub mod fields { pub fn name() {} pub fn type_args() {} pub fn preamble() {} }\n"
     user_rs += "pub mod own { " + " ".join("pub fn base_d%d_html() {} pub fn d%d_html_v2() {} pub fn d%d_html() {}" % (i, i, i) for i in range(0, n, 8)) + " }\n"
     # run through a local variant of the suite: one argument set per template (its own values)
     chk = Check(pid, tier)
@@ -636,6 +642,9 @@ def run_c13(pid, tier):
              ("@use std::fmt::Debug;\n@(x: u8)\n@x", "@use std::fmt::Write;\n@(x: u8)\n@x", "use std::fmt::Write;\n"),
              ("@(c: Content, t: u8)\n@:c()@t", "@(t: u8, c: Content)\n@:c()@t", "  t: u8,\n  c: impl FnOnce(&mut W) -> io::Result<()>,\n")]
     scen = [[('W', 't/s.rs.html', v1), ('R', [('c', 't')]), ('W', 't/s.rs.html', v2), ('R', [('c', 't')])] for v1, v2, _ in edits]
+    # ... and the edited file may carry the modification time of the old one (mv / cp -p / restore), older than the generated file
+    scen += [[('W', 't/s.rs.html', v1), ('R', [('c', 't')]), ('T', 't/s.rs.html', v2), ('R', [('c', 't')])] for v1, v2, _ in edits]
+    edits = edits + edits
     for (v1, v2, must), r in zip(edits, build_lib.run_scenarios(scen)):
         chk.count(("rebuild " + v2).encode(), True)
         runs = [x for x in r["runs"] if x["kind"] == "R"]
